@@ -102,7 +102,7 @@ var c18Workloads = []c18Workload{
 			}
 			return b
 		}},
-	{name: "matrixtranspose", outputs: []string{"hOutputData"},
+	{name: "matrixtranspose", timing: true, outputs: []string{"hOutputData"},
 		mk: func(d *driver.Driver, small bool) c18Bench {
 			b := matrixtranspose.NewBenchmark(d)
 			b.Width = 256
@@ -122,7 +122,7 @@ var c18Workloads = []c18Workload{
 			b.NumIterations = 0
 			return b
 		}},
-	{name: "fir", device: []string{"gOutputData:4"},
+	{name: "fir", timing: true, device: []string{"gOutputData:4"},
 		mk: func(d *driver.Driver, small bool) c18Bench {
 			b := fir.NewBenchmark(d)
 			b.Length = 1024
@@ -335,7 +335,7 @@ func c18Dynamic(r *Run, rng *Rng) {
 	thorough := r.Tier == "thorough"
 	sets := [][]int{{1, 2}, {1, 2, 3, 4}}
 	if thorough {
-		sets = append(sets, []int{2, 3}, []int{1, 2, 3}, []int{4, 1})
+		sets = append(sets, []int{2, 3}, []int{4, 1}, []int{3, 4, 1, 2}) // sizes 1, 2, 4 only: the workloads split their grids evenly
 	}
 	// job list: per workload the single-GPU baseline first, then every other configuration
 	var jobs []*c18DynJob
@@ -356,9 +356,7 @@ func c18Dynamic(r *Run, rng *Rng) {
 		// timing platform, 2 GPUs: remote accesses cross the real RDMA engines
 		jobs = append(jobs, &c18DynJob{w: w, cfg: c18DynCfg{gpus: []int{1}, timing: true}})
 		jobs = append(jobs, &c18DynJob{w: w, cfg: c18DynCfg{gpus: []int{1, 2}, timing: true}})
-		if thorough {
-			jobs = append(jobs, &c18DynJob{w: w, cfg: c18DynCfg{gpus: []int{1, 2}, timing: true, unified: true}})
-		}
+		jobs = append(jobs, &c18DynJob{w: w, cfg: c18DynCfg{gpus: []int{1, 2}, timing: true, unified: true}})
 	}
 	t0 := time.Now()
 	sem := make(chan struct{}, 6)
@@ -370,9 +368,9 @@ func c18Dynamic(r *Run, rng *Rng) {
 			// Driver.DrainCommandQueue has a lost-wake-up race (property C12) that shows as a rare
 			// hang under load; a hung run is repeated, only a persistent hang is reported here
 			for attempt := 0; attempt < 3; attempt++ {
-				limit := 45 * time.Second
+				limit := 30 * time.Second
 				if j.cfg.timing {
-					limit = 120 * time.Second
+					limit = 90 * time.Second
 				}
 				j.data, j.st = c18RunWorkload(r, j.w, j.cfg, limit)
 				if j.st == "hang" {
